@@ -23,8 +23,11 @@ vars == <<plan, o, fs, log, ver, bad>>
 Item(id, kind, sub, dir, src) ==
     [id |-> id, kind |-> kind, sub |-> sub, dir |-> dir, src |-> src, rename |-> <<>>, pp |-> FALSE, hsub |-> <<>>,
      stem |-> "", locale |-> "", sect |-> "", strip |-> FALSE, exf |-> <<>>, exd |-> <<>>, st |-> <<>>,
-     mode |-> -1, tag |-> "", ext |-> "", to |-> ""]
-E(p, t, m, c) == [p |-> p, t |-> t, m |-> m, c |-> c]
+     mode |-> -1, tag |-> "", ext |-> "", to |-> "", fl |-> ""]
+E(p, t, m, c) == [p |-> p, t |-> t, m |-> m, c |-> c, l |-> "", r |-> ""]
+\* a source that is a symbolic link with text l, resolving to a file of mode m and content c (r = "file": a source of
+\* the project, edited with it; "fixed": somebody else's file) or dangling (r = "none")
+L(p, l, r, m, c) == [p |-> p, t |-> "link", m |-> m, c |-> c, l |-> l, r |-> r]
 None == [k |-> "none", p |-> <<>>]
 AbsD(p) == [k |-> "abs", p |-> p]
 
@@ -51,9 +54,18 @@ C16 == [Item("c16", "symlink", "sp1", AbsD(<<"etc", "x">>), <<"abs lnk">>) EXCEP
 C17 == [Item("c17", "emptydir", "", Rel(<<"share", "x">>), <<>>) EXCEPT !.mode = 488]       \* where C1, C6, C9, C15 install to
 C18 == [Item("c18", "emptydir", "", Rel(<<"var">>), <<>>) EXCEPT !.mode = 489]                \* parent of C7
 C19 == [Item("c19", "emptydir", "sp1", Rel(<<"share", "S">>), <<>>) EXCEPT !.mode = 448]     \* top directory copied by C5
+\* sources that are symbolic links: copied as links (to a sibling of the same tree; absolute, to a file outside DESTDIR)
+\* or dereferenced
+C20 == [Item("c20", "subdir", "", Rel(<<"share">>), <<"L">>) EXCEPT !.fl = "false", !.tag = "t1",
+            !.st = <<E(<<"f">>, "file", 384, "c20"), L(<<"lnk">>, "f", "file", 384, "c20")>>]
+C21 == [Item("c21", "subdir", "", Rel(<<"share">>), <<"M">>) EXCEPT !.fl = "true",
+            !.st = <<E(<<"f">>, "file", 493, "c21"), L(<<"lnk">>, "f", "file", 493, "c21")>>]
+C22 == [Item("c22", "data", "", Rel(<<"share", "x">>), <<"k.lnk">>) EXCEPT !.fl = "false", !.mode = 420,
+            !.st = <<L(<<>>, "/usr/keep", "fixed", 384, "keep")>>]
+C23 == [Item("c23", "header", "sp1", None, <<"k.h">>) EXCEPT !.ext = ".h", !.st = <<L(<<>>, "/usr/keep", "fixed", 384, "keep")>>]
 
-Catalog == IF CatalogName = "small" THEN {C1, C2, C3, C5, C8, C9, C10, C17}
-           ELSE {C1, C2, C3, C4, C5, C6, C7, C8, C9, C10, C11, C12, C13, C14, C15, C16, C17, C18, C19}
+Catalog == IF CatalogName = "small" THEN {C1, C2, C3, C5, C8, C9, C10, C17, C20}
+           ELSE {C1, C2, C3, C4, C5, C6, C7, C8, C9, C10, C11, C12, C13, C14, C15, C16, C17, C18, C19, C20, C21, C22, C23}
 
 BaseOpts == [prefix |-> <<"usr">>, bindir |-> <<"bin">>, sbindir |-> <<"sbin">>, libdir |-> <<"lib">>,
              includedir |-> <<"include">>, localedir |-> <<"share", "locale">>, datadir |-> <<"share">>,
@@ -81,7 +93,7 @@ PlantPaths == { D \o <<"zz">>, D \o <<"usr", "share", "x", "zz">> }
 
 \* the rule with its sources as they are now (an edited source has new content and a newer time stamp)
 Cur(i) == IF ver = 0 THEN i
-          ELSE [i EXCEPT !.st = [k \in 1..Len(i.st) |-> IF i.st[k].t = "file" THEN [i.st[k] EXCEPT !.c = @ \o "#1"] ELSE i.st[k]]]
+          ELSE [i EXCEPT !.st = [k \in 1..Len(i.st) |-> IF i.st[k].t = "file" \/ (i.st[k].t = "link" /\ i.st[k].r = "file") THEN [i.st[k] EXCEPT !.c = @ \o "#1"] ELSE i.st[k]]]
 CurPlan == { Cur(i) : i \in plan }
 
 Perms(S) == { f \in [1..Cardinality(S) -> S] : \A j, k \in 1..Cardinality(S) : j # k => f[j] # f[k] }
